@@ -53,11 +53,16 @@ def _playback(unit: str, harness: str, timeout: int = 900):
     body = re.sub(r"concrete_playback_run\(concrete_vals, \w+\)", f"concrete_playback_run(concrete_vals, crate::{harness})", body)
     test_src = f"#[test]\nfn {name}() {{{body}\n}}\n"
     dst = os.path.join(BUILD, "kani", unit + "-replay")
-    shutil.rmtree(os.path.join(dst, "src"), ignore_errors=True)
     os.makedirs(dst, exist_ok=True)
-    shutil.copytree(os.path.join(src, "src"), os.path.join(dst, "src"))
-    for f in ("Cargo.toml", "Cargo.lock"):
-        shutil.copyfile(os.path.join(src, f), os.path.join(dst, f))
+    for ent in os.listdir(src):          # whole crate (incl. local shim crates), build output excluded; the replay copy keeps its own target/
+        if ent == "target":
+            continue
+        a, b = os.path.join(src, ent), os.path.join(dst, ent)
+        if os.path.isdir(a):
+            shutil.rmtree(b, ignore_errors=True)
+            shutil.copytree(a, b)
+        else:
+            shutil.copyfile(a, b)
     with open(os.path.join(dst, "src", "lib.rs"), "a") as f:
         f.write("\n#[cfg(kani)]\nmod hvx_playback {\n" + test_src + "}\n")
     r2 = subprocess.run(["cargo", "kani", "playback", "-Z", "concrete-playback", "--", name], cwd=dst,
